@@ -19,6 +19,7 @@ RULE = (
 	'random schemas from VERIF_SEED written as CATS text and parsed by the real parser: 1-4 inline templates (members drawn from every '
 	'form: counted/sized/numeric/fill arrays with sort_key, alignment [not] pad_last, is_byte_constrained; conditionals with all four '
 	'operators; sizeref with and without delta; sizeof; reserved; const (numeric and enum); alias/enum/struct typed members; __value__; '
+	'a matrix block (four array kinds x sort_key/alignment/is_byte_constrained, sizeref, sizeof, conditions) in 30-40% of templates and links; '
 	'nested named inlines) x 1-4 named-inline sites per template (several sites per struct and across structs, with [member] site '
 	'comments) x chains of unnamed inlines of depth 1-4 with abstract/inline/plain links carrying struct attributes; 75% declared before '
 	'use, 25% shuffled declaration order; plus both shipped schema sets. A case is one (schema, phase, struct) comparison; distinct by '
@@ -145,7 +146,17 @@ def gen_members(rng, names, options, allow_value):
 				lines.append(f'\t{size_name} = uint32')
 				lines.append(f'\t__value__ = array({rng.choice(["int8", "uint8", "Elem"])}, {size_name})')
 		elif 'numeric' == form:
-			lines.append(f'\t{names.member()} = array({rng.choice(["uint8", "Elem", "int16"])}, {rng.choice(["0", "1", "16", "0x20"])})')
+			element = rng.choice(['uint8', 'Elem', 'Elem', 'int16'])
+			attributes = []
+			if 'Elem' == element and rng.random() < 0.6:
+				attributes.append(f'\t@sort_key({rng.choice(["key", "weight"])})')
+			if rng.random() < 0.3:
+				attributes.append('\t@alignment(' + rng.choice(['8', '4']) + rng.choice(['', ', pad_last', ', not pad_last']) + ')')
+			if rng.random() < 0.2:
+				attributes.append('\t@is_byte_constrained')
+			rng.shuffle(attributes)
+			lines.extend(attributes)
+			lines.append(f'\t{names.member()} = array({element}, {rng.choice(["0", "1", "16", "0x20"])})')
 		elif 'fill' == form:
 			attributes = []
 			element = rng.choice(['Elem', 'Elem', 'uint8', 'Thing'])
@@ -193,6 +204,31 @@ def gen_members(rng, names, options, allow_value):
 				lines.append(f'\t{name} = make_const({rng.choice(INT_TYPES)}, {rng.choice(["0", "7", "0x1234"])})')
 			else:
 				lines.append(f'\t{name} = make_const(Kind, {rng.choice(["NONE", "SOME"])})')
+	return lines
+
+
+def matrix_members(rng, names):
+	"""Every carrier of a reference, once: the four array kinds (counted by a sibling, byte-sized by a sibling, __FILL__, literal
+	count) each with @sort_key, @alignment and (where it changes the kind) @is_byte_constrained; @sizeref; sizeof; conditions on an
+	enum and on a number; so every re-pointing rule of the copy meets every carrier kind inside one template."""
+	lines = []
+	count, size = names.member('count'), names.member('size')
+	lines += [f'\t{count} = uint16', f'\t{size} = uint32']
+	for kind in ('counted', 'sized', 'literal', 'fill'):
+		attributes = [f'\t@sort_key({rng.choice(["key", "weight"])})', '\t@alignment(8' + rng.choice(['', ', pad_last', ', not pad_last']) + ')']
+		if 'sized' == kind or ('counted' != kind and rng.random() < 0.3):
+			attributes.append('\t@is_byte_constrained')
+		rng.shuffle(attributes)
+		lines += attributes
+		length = {'counted': count, 'sized': size, 'literal': rng.choice(['4', '0x10']), 'fill': '__FILL__'}[kind]
+		lines.append(f'\t{names.member(kind)} = array(Elem, {length})')
+	body = names.member('body')
+	lines += [f'\t@sizeref({body}, {rng.choice(["0", "2"])})', f'\t{names.member("size")} = uint16']
+	lines += [f'\t{names.member("size")} = sizeof(uint32, {body})', f'\t{body} = Thing']
+	mode, flags = names.member('mode'), names.member('flags')
+	lines += [f'\t{mode} = Mode', f'\t{flags} = uint8']
+	lines.append(f'\t{names.member()} = uint32 if {rng.choice(["ROAD", "SEA"])} {rng.choice(OPERATIONS)} {mode}')
+	lines.append(f'\t{names.member()} = array(Elem, {count}) if {rng.choice(["0", "3"])} {rng.choice(OPERATIONS)} {flags}')
 	return lines
 
 
@@ -246,6 +282,8 @@ def gen_schema(rng, options=None):
 			name = f'Link{chr(64 + link_index)}x{level}'
 			names = Names(rng)
 			body = gen_members(rng, names, options, allow_value=False)
+			if rng.random() < 0.3:
+				body += matrix_members(rng, names)
 			placeholders = []
 			if previous is not None:
 				placeholders.append(previous)
@@ -275,6 +313,8 @@ def gen_schema(rng, options=None):
 		name = f'Tpl{chr(65 + index)}a'
 		names = Names(rng)
 		body = gen_members(rng, names, options, allow_value=True)
+		if rng.random() < 0.4:
+			body += matrix_members(rng, names)
 		named = []
 		if templates and rng.random() < 0.3:
 			inner = rng.choice(templates)
@@ -689,10 +729,75 @@ def has_late_nested_template(snap):
 	return False
 
 
+def carrier_kind(descriptor, attributes):
+	"""The kind of a member as a carrier of references (before post-processing)."""
+	kind = descriptor.get('disposition')
+	if isinstance(kind, str) and kind.startswith('array'):
+		if 'array fill' == kind:
+			return 'array-fill'
+		if not isinstance(descriptor.get('size'), str):
+			return 'array-literal'
+		return 'array-sized' if any('is_byte_constrained' == name for name, _ in attributes) else 'array-counted'
+	if 'sizeof' == kind:
+		return 'sizeof'
+	if kind in ('const', 'reserved'):
+		return str(kind)
+	if 'inline' == kind:
+		return 'named-inline'
+	return 'integer' if 'signedness' in descriptor else 'typed'
+
+
+def count_features(ctx, snap):
+	"""Feature counts for the evidence: which carrier kinds x reference-bearing attributes sit in structs used by named / unnamed inlines."""
+	named_targets, unnamed_targets = set(), set()
+	for entry in snap:
+		for member in entry.get('members', []):
+			if 'placeholder' in member:
+				unnamed_targets.add(member['placeholder'])
+			elif 'inline' == member['descriptor'].get('disposition'):
+				named_targets.add(member['descriptor']['type'])
+	for entry in snap:
+		uses = [use for use, targets in (('named', named_targets), ('unnamed', unnamed_targets)) if entry['name'] in targets]
+		for member in entry.get('members', []):
+			if 'placeholder' in member:
+				continue
+			kind = carrier_kind(member['descriptor'], member['attributes'])
+			features = [name for name, _ in member['attributes']]
+			if 'condition' in member['descriptor']:
+				features.append('condition')
+			if isinstance(member['descriptor'].get('size'), str):
+				features.append('size-member')
+			for use in uses:
+				ctx.count(f'feature:{use}-inline:{kind}')
+				for feature in features:
+					ctx.count(f'feature:{use}-inline:{kind}:{feature}')
+
+
 class Checker:
 	def __init__(self, ctx):
 		self.ctx = ctx
 		self.reported = {}
+
+	def check_sort_key_uniform(self, snap, oracle, expected, actual, case):
+		"""Whatever a named-inline copy does with the sort key of an array (keep it, as the model and the property say, or prefix it,
+		as the recorded finding says the code does), it has to do the same for every array kind."""
+		treatments = {}
+		for entry, want, got in zip(snap, expected, actual):
+			if not entry['struct'] or len(want.get('layout', [])) != len(got.get('layout', [])):
+				continue
+			copied = oracle.copied_flags(entry['name'], 'named')
+			for index, (left, right) in enumerate(zip(want['layout'], got['layout'])):
+				if index >= len(copied) or not copied[index] or 'sort_key' not in left:
+					continue
+				kind = 'fill' if 'array fill' == left.get('disposition') else 'literal' if not isinstance(left.get('size'), str) else 'sibling-sized'
+				key = right.get('sort_key')
+				treatment = 'kept' if key == left['sort_key'] else 'prefixed' if isinstance(key, str) and key.endswith('_' + left['sort_key']) else 'other'
+				treatments.setdefault(treatment, {}).setdefault(kind, f'{entry["name"]}.{left["name"]}: {key!r}')
+				self.ctx.count(f'sort-key-of-copy:{kind}:{treatment}')
+		if 1 < len(treatments):
+			self.fail_property(
+				f'named: the sort key of a copied array is treated differently for different array kinds: {treatments}'[:700],
+				{**case, 'phase': 'named'})
 
 	def fail_property(self, what, case, signature=None):
 		key = signature or 'other'
@@ -721,6 +826,7 @@ class Checker:
 		ctx.count('schemas:' + ('declared-before-use' if ordered else 'shuffled'))
 		oracle = Oracle(snap, ordered)
 		nested_late = has_late_nested_template(snap)
+		count_features(ctx, snap)
 
 		model_report = None
 		if ctx.driver is not None:
@@ -784,6 +890,8 @@ class Checker:
 				stop = True
 			else:
 				differences = 0
+				if 'named' == phase:
+					self.check_sort_key_uniform(snap, oracle, expected, actual, case)
 				for entry, want, got in zip(snap, expected, actual):
 					if not entry['struct']:
 						if want != got:
